@@ -15,6 +15,18 @@ CHECKS = {
  "C13": ("must-call pairing + guard dominance + provenance of listing prefixes",
          "Counter updates are paired with the entry write on every success path, read and written under the same key, change one counter by one, copy all other fields and are guarded against double counting; listing prefix = family prefix ++ PartialEncode(key, n-1) with fixed components from the request and the callback decodes prefix++suffix with the same key type.",
          "Trusts query.Paginate; prefix exactness relies on C18's decided clauses."),
+ "C03": ("guard dominance + argument provenance of the ownership proof + body analysis of proof/verify/lookup functions",
+         "Every DID write in a handler is dominated by proof(...).err==nil; the proof looks keys up in the stored document read under the written key (or the submitted one on create), signs the document that gets stored, and internally succeeds only via doc.Authentications lookup, the exact secp256k1 key-type gate, decoded key and VerifySignature over Marshal(DataWithSeq{Marshal(data), seq}). Functions are found by role (reachability to PubKey.VerifySignature), not by name.",
+         "Trusts cometbft secp256k1, base58, gogoproto marshalling."),
+ "C04": ("provenance of stored/consumed sequence terms through handler, proof and verify functions",
+         "Stored sequence = 0 on create and = proof(...)[0] otherwise; the proof consumes the Sequence field of the entry read under the written key; proof returns verify's result unchanged; verify returns seq+1 of the seq inside the signed bytes; the query returns the stored entry unmodified. Replay rejection follows on paper from these.",
+         "Trusts signature unforgeability/non-malleability; ignores uint64 wrap."),
+ "C05": ("predicate expansion by path enumeration + truth-table entailment over entry-state atoms; who-may-call; loop shape",
+         "Path condition at each write, with Empty/Deactivated expanded to {Document==nil, Id==\"\", Sequence==0}, excludes active/tombstone for creates and entails active for updates/deactivates; no Delete on the DID store; query succeeds only for active entries; genesis export/import/list loops have no conditional skip.",
+         "Trusts store semantics and proto round trip of an empty sub-message."),
+ "C11": ("validation coverage: dominating equality fact on every accepting path of ValidateBasic or in the handler",
+         "For every handler storing a caller-supplied document under msg.Did, msg.Did == msg.Document.Id is established on every nil-returning path of the message's ValidateBasic or before the write; deactivation signs DIDDocument{Id: msg.Did}. Decided in full for messages (presence-on-every-path property).",
+         "Trusts baseapp running ValidateBasic before handlers; genesis files are trusted input."),
 }
 
 PENDING_REASON = "check not built yet in this round (planned per DESIGN.md section 4); no claim is made until the checker rule exists"
